@@ -75,6 +75,12 @@ def gen_cases(ctx):
         {"op": "history", "init": [["x", 3], ["y", 3]], "steps": [{"k": "transform", "m": "filter_none"}, {"k": "setitem", "name": "z", "v": 3}]},
         {"op": "history", "init": [["x", 3], ["y", 3], ["z", 3]], "steps": [{"k": "colnames", "perm": "partial_mid"}]},
     ]
+    # every transform once on each small shape (no rows, ONE row — where a broadcast can hide a mismatch —, two and three rows;
+    # one and three columns): what a run catches must not hang on which shapes the random histories happen to reach
+    for m in TRANSFORMS:
+        for nrow in (0, 1, 2, 3):
+            cases.append({"op": "history", "init": [["x", nrow], ["y", nrow], ["z", nrow]], "steps": [{"k": "transform", "m": m}]})
+        cases.append({"op": "history", "init": [["x", 1]], "steps": [{"k": "transform", "m": m}, {"k": "transform", "m": m}]})
     n = 400 if ctx.tier == "quick" else 8000
     for _ in range(n):
         cases.append(gen_case(rng, ctx.tier))
